@@ -50,7 +50,7 @@ class Findings:
                 lines = []
                 for li in range(nlines):
                     lv = z3.BitVec('%s_line_%d_%d_%d' % (tag, pi, fi, li), 32)
-                    self.base.append(lv >= 1)
+                    self.base.append(lv >= -100000)          # `any line sets`: zero and negative numbers are line numbers of the map too
                     self.base.append(lv <= 100000)
                     if lines:
                         self.base.append(lines[-1] < lv)
